@@ -107,7 +107,7 @@ PROPS = {
                 pending=[]),
     'C20': dict(obligations=lambda: P('SqProps.C20') + TIE_LEX,
                 slices=['errmsg'], monitors=['c20'],
-                pending=['the offending token handed to p_error is a token of the text (parser-level suffix property)']),
+                pending=['the token is the FIRST one at which no continuation is grammatical (viable-prefix property of the LALR automaton): correspondence only']),
 }
 
 for _k, _v in PROPS.items():
